@@ -112,10 +112,44 @@ def run_config(method, outk, reskind, dtype_kw):
     return problems
 
 
+def run_discr(method, outk):
+    odl, np = _odl()
+    rng = np.random.default_rng(4)
+    pr = []
+    X = odl.uniform_discr([0, 0], [1, 2], (3, 4), dtype='float32')
+    Yc = odl.uniform_discr([0, 0], [1, 2], (3, 4), dtype='complex128')
+    a = rng.uniform(0.5, 2, X.shape).astype('float32')
+    b = (rng.uniform(0.5, 2, X.shape) + 1j * rng.uniform(0.5, 2, X.shape))
+    x, y = X.element(a.copy()), Yc.element(b.copy())
+    m = '__call__' if method.startswith('__call__') else method
+    try:
+        if m == 'outer':
+            r, ref = np.add.outer(x, y), np.add.outer(a, b)
+            if r.dtype != ref.dtype or not np.allclose(r.asarray(), ref) or r.shape != ref.shape:
+                pr.append('np.add.outer(float32 element, complex128 element): dtype %r shape %r, NumPy gives dtype %r shape %r (values equal: %r)' % (
+                    r.dtype, r.shape, ref.dtype, ref.shape, bool(np.allclose(np.asarray(r.asarray(), dtype=ref.dtype), ref))))
+        if m in ('accumulate', '__call__') and outk in ('element', 'tensor', 'ndarray'):
+            X64 = odl.uniform_discr([0, 0], [1, 2], (3, 4))
+            x64 = X64.element(a.astype('float64'))
+            out = X64.element() if outk == 'element' else (X64.tspace.element() if outk == 'tensor' else np.empty(X64.shape))
+            res = np.add.accumulate(x64, axis=0, out=out) if m == 'accumulate' else np.add(x64, x64, out=out)
+            ref = np.add.accumulate(a.astype('float64'), axis=0) if m == 'accumulate' else 2 * a.astype('float64')
+            if res is not out:
+                pr.append('np.add%s(..., out=<%s>): the returned object is not the given out (got %s)' % ('.accumulate' if m == 'accumulate' else '', outk, type(res).__name__))
+            if not np.allclose(np.asarray(out), ref):
+                pr.append('out content differs from NumPy')
+    except Exception as e:
+        pr.append('raised %s: %s' % (type(e).__name__, e))
+    return pr
+
+
 def replay(ob):
     cfg = ob.get('config') or {}
     unit = ob['unit']
     odl, np = _odl()
+    if unit.startswith('dispatch/discr'):
+        pr = run_discr(cfg.get('method'), cfg.get('out'))
+        return {'reproduced': bool(pr), 'detail': '; '.join(pr[:3]) or 'agrees with NumPy natively', 'input': cfg}
     if unit.startswith('dispatch/tensor'):
         pr = run_config(cfg.get('method'), cfg.get('out'), cfg.get('result'), cfg.get('dtype_kw'))
         return {'reproduced': bool(pr), 'detail': '; '.join(pr[:3]) or 'agrees with NumPy on the native pool', 'input': cfg}
